@@ -748,7 +748,7 @@ fn op_timedec<T: Ty>(b: &[u8]) -> Out {
         best_v = best_v.min(tv);
         best_t = best_t.min(tt + td);
     }
-    if best_t <= 25.0 * best_v + 2.0 {
+    if best_t <= 25.0 * best_v + 0.5 {
         Ok(format!("ok {}", if accepted { "accepted" } else { "rejected" }))
     } else {
         Ok(format!("slow typed={:.3}s parse={:.3}s len={}", best_t, best_v, b.len()))
